@@ -53,6 +53,7 @@ type massiveCase struct {
 	Fmt      Fmt4     `json:"fmt"`
 	Known    string   `json:"known_class,omitempty"`
 	ReadFail int      `json:"reader_fails_after,omitempty"` // >0: the reader fails after this many bytes (minus one)
+	SlowUS   int      `json:"slow_writer_us,omitempty"`     // each Write of the massive run takes this long
 }
 
 // installSched installs a seeded perturbation at the hand-over points and returns the list of points reached.
@@ -88,9 +89,13 @@ type lockedBuf struct {
 	buf      bytes.Buffer
 	returned bool
 	late     int
+	slow     time.Duration // a writer that takes its time (a pipe to a slow consumer)
 }
 
 func (b *lockedBuf) Write(p []byte) (int, error) {
+	if b.slow > 0 {
+		time.Sleep(b.slow)
+	}
 	b.mu.Lock()
 	defer b.mu.Unlock()
 	if b.returned {
@@ -119,6 +124,8 @@ type opResult struct {
 	snap string   // mkdir
 }
 
+var runOpSlow time.Duration
+
 var runOpReadFail int // set by runMassive for the duration of one case (massive cases run one at a time)
 
 func docReader(doc []byte) io.Reader {
@@ -139,6 +146,9 @@ func runOp(op string, doc []byte, massive bool, ctx context.Context, f Fmt4, ext
 	}
 	var res opResult
 	buf := &lockedBuf{}
+	if massive {
+		buf.slow = runOpSlow
+	}
 	res.lb = buf
 	switch op {
 	case "text":
@@ -147,6 +157,8 @@ func runOp(op string, doc []byte, massive bool, ctx context.Context, f Fmt4, ext
 		res.err = gtree.OutputFromMarkdown(buf, docReader(doc), append(opts, encodeOpt(op))...)
 	case "dry":
 		res.err = gtree.OutputFromMarkdown(buf, docReader(doc), append(opts, gtree.WithDryRun(), gtree.WithFileExtensions(exts))...)
+	case "dry+json":
+		res.err = gtree.OutputFromMarkdown(buf, docReader(doc), append(opts, gtree.WithDryRun(), gtree.WithEncodeJSON(), gtree.WithFileExtensions(exts))...)
 	case "walk":
 		var mu sync.Mutex
 		var rows []string
@@ -241,7 +253,7 @@ func blocksOf(op string, simple []byte, sizes []int) []string {
 	i := 0
 	for _, n := range sizes {
 		k := n
-		if op == "dry" {
+		if op == "dry" || op == "dry+json" {
 			k = n + 2 // empty line + summary
 		}
 		if i+k > len(lines) {
@@ -264,7 +276,8 @@ func runMassive(m *Model, c massiveCase) []Diff {
 		defer runtime.GOMAXPROCS(runtime.GOMAXPROCS(c.Procs))
 	}
 	runOpReadFail = c.ReadFail
-	defer func() { runOpReadFail = 0 }()
+	runOpSlow = time.Duration(c.SlowUS) * time.Microsecond
+	defer func() { runOpReadFail, runOpSlow = 0, 0 }()
 	simple := runOp(c.Op, doc, false, nil, c.Fmt, c.Exts)
 	// per-root block sizes of the reference (simple-mode) result: roots are the level-1 visits
 	var sizes []int
@@ -287,7 +300,7 @@ func runMassive(m *Model, c massiveCase) []Diff {
 	}
 	if simple.err == nil && massive.err == nil {
 		switch c.Op {
-		case "text", "dry", "json", "yaml":
+		case "text", "dry", "json", "yaml", "dry+json":
 			ok := false
 			if c.Op == "yaml" {
 				a := strings.Split(string(simple.out), "---\n")
@@ -426,7 +439,7 @@ func runC10(ctx *Ctx) *Report {
 				continue
 			}
 			k++
-			c := massiveCase{Kind: "massive", Op: op, Doc: hx(doc), Text: docText(doc), Blocks: forestSizes(f), Sched: int64(ctx.Seed*1000 + int64(k)), Fmt: allFormats()[k%5], Exts: extLists[k%len(extLists)]}
+			c := massiveCase{Kind: "massive", Op: op, Doc: hx(doc), Text: docText(doc), Blocks: forestSizes(f), Sched: int64(ctx.Seed*1000 + int64(k)), Fmt: allFormats()[k%len(allFormats())], Exts: extLists[k%len(extLists)]}
 			if k%5 == 0 {
 				c.Procs = []int{1, 2, 4}[k%3]
 			}
@@ -487,6 +500,37 @@ func runC10(ctx *Ctx) *Report {
 				cases = append(cases, massiveCase{Kind: "massive", Op: ops[k%4], Doc: hxs(d), Text: docText([]byte(d)), Sched: int64(k), Fmt: fmtDefault, Known: inj.class})
 			}
 		}
+	}
+	// many good roots, then (or before, or in between) a malformed one: massive rejects iff simple rejects,
+	// whichever worker gets the malformed block and whatever it processed before
+	{
+		good := string(spell(big[:30], plainSpelling))
+		for ji, inj := range injections {
+			bad := "- bad\n" + inj.row("  ", "  ") + "\n  - tail\n"
+			bad0 := "- bad\n" + inj.row("", "  ") + "\n  - tail\n" // the malformed row comes right after the root row
+			h := strings.Index(good[len(good)/2:], "\n- ")
+			cut := len(good)/2 + h + 1
+			for _, d := range []string{good + bad, bad + good, good[:cut] + bad + good[cut:], good + bad0, good[:cut] + bad0 + good[cut:]} {
+				for rep := 0; rep < 2 || (ctx.Thorough && rep < 8); rep++ {
+					k++
+					cases = append(cases, massiveCase{Kind: "massive", Op: ops[(k+ji)%4], Doc: hxs(d), Text: "<30 good roots and one malformed: " + inj.class + ">", Sched: int64(k), Fmt: fmtDefault, Known: inj.class, Procs: []int{0, 1, 2, 16}[k%4]})
+				}
+			}
+		}
+	}
+	// a slow writer: everything must have been written when a nil result is returned
+	for s := 0; s < 3 || (ctx.Thorough && s < 12); s++ {
+		doc := spell(big[:8], plainSpelling)
+		for _, op := range []string{"text", "json", "yaml", "dry"} {
+			k++
+			cases = append(cases, massiveCase{Kind: "massive", Op: op, Doc: hx(doc), Text: "<8 roots, slow writer>", Sched: int64(k), Fmt: fmtDefault, SlowUS: 300})
+		}
+	}
+	// an unusual but accepted option combination
+	for s := 0; s < 4; s++ {
+		doc := spell(big[:6], coveringSpellings()[s])
+		cases = append(cases, massiveCase{Kind: "massive", Op: "dry+json", Doc: hx(doc), Text: "<6 roots, dry-run + json>", Sched: int64(9100 + s), Fmt: fmtDefault, Exts: []string{".go"}})
+		cases = append(cases, massiveCase{Kind: "massive", Op: "dry+json", Doc: hxs("- a\n  - x/y\n- b\n"), Text: "dry-run + json, hostile name", Sched: int64(9200 + s), Fmt: fmtDefault})
 	}
 	// a failing reader: error iff error
 	{
